@@ -358,6 +358,20 @@ def c02_read(card, lay):
     return ("empty",) if len(o) == 0 else ("msg", o)
 
 
+def c02_cls(lay, L):
+    """structural class of a write of L bytes: what the layout says about how NLEN and the data can travel.  A short APDU
+    carries at most 255 command data bytes whatever MLc announces, so 'fits MLc' and 'fits one UPDATE BINARY' differ for
+    MLc > 255 (a reader that only sends short APDUs)"""
+    ns = ns_of(lay)
+    if lay["mlc"] < ns:
+        return "mlc<nlen"
+    if L + ns <= min(lay["mlc"], 255):
+        return "single-update"
+    if L + ns <= lay["mlc"]:
+        return "lc>255-within-mlc"
+    return "chunked"
+
+
 def c02_eval(R, case, count=True):
     from vf.sim import t4t
     lay = case["lay"]
@@ -379,12 +393,29 @@ def c02_eval(R, case, count=True):
     uncut_ok = final == (("msg", new) if new else ("empty",))
     if not uncut_ok and count:
         R.count("t4t_c02_uncut_write_not_readable_as_new")
-    cls = "mlc<nlen" if lay["mlc"] < ns else ("single-update" if len(new) + ns <= lay["mlc"] else "chunked")
+    cls0 = c02_cls(lay, len(new))
+    big = lay["mlc"] > 255
+    if count and big:
+        R.seen("t4t_c02_mlc>255_values", lay["mlc"])
+        R.seen("t4t_c02_mlc>255_mle_values", lay["mle"])
+        R.seen("t4t_c02_mlc>255_field+len_minus_255", max(-3, min(3, len(new) + ns - 255)))
+        R.seen("t4t_c02_mlc>255_field+len_minus_mlc", max(-3, min(3, len(new) + ns - lay["mlc"])))
+        R.seen("t4t_c02_mlc>255_update_commands", min(n, 12))
+        if cls0 == "single-update":
+            R.count("t4t_c02_mlc>255_single_short_apdu_writes")
+        elif cls0 == "chunked":
+            R.count("t4t_c02_mlc>255_above_mlc_writes")
+        elif n > 1:
+            if len(new) + ns == 256:
+                R.count("t4t_c02_mlc>255_first_length_beyond_short_apdu")
+            if len(new) + ns == lay["mlc"] and lay["mlc"] > 257:
+                R.count("t4t_c02_mlc>255_largest_length_within_mlc")
     ks = [case["k"]] if "k" in case else range(n + 1)
     for k in ks:
         if k == n and not uncut_ok:
             continue
         card.restore(snap)
+        nw = len(card.write_log)
         try:
             clf, dev, tag = act(card, lay)
             nd = tag.ndef
@@ -394,9 +425,23 @@ def c02_eval(R, case, count=True):
         except Exception:         # noqa
             cut_seen = True
         view = c02_read(card, lay)
+        cls = cls0
+        if cls == "mlc<nlen":
+            # the known mechanism of this class is a cut between the commands of one update of the NLEN field (the last applied
+            # UPDATE BINARY ended inside the field); a mixture after any other cut is something else
+            last = card.write_log[-1] if len(card.write_log) > nw else None
+            if last is not None and last[1] + len(last[2]) >= ns:
+                cls = "mlc<nlen-cut-outside-nlen-update"
         if count:
             R.count("t4t_cuts")
             R.count("t4t_cut_%s" % cls)
+            if big:
+                R.count("t4t_c02_mlc>255_cuts")
+                if cls == "lc>255-within-mlc" and 1 <= k < n:
+                    R.count("t4t_c02_mlc>255_within_mlc_midcuts")
+                    R.count("t4t_c02_mlc>255_within_mlc_midcuts_nlen%d" % ns)
+                    if len(old) != len(new):
+                        R.count("t4t_c02_mlc>255_within_mlc_midcuts_old_%s" % ("shorter" if len(old) < len(new) else "longer"))
         if view[0] == "raises":
             if count:
                 R.count("t4t_cut_outcome_reader_raised")     # C08's subject
@@ -431,11 +476,63 @@ def c02_eval(R, case, count=True):
 
 def plan_c02(tier):
     if tier == "quick":
-        return [{"n": 130}, {"n": 130}, {"n": 130}]
-    return [{"n": 3500, "timeout": 1500} for _ in range(6)]
+        return [{"n": 130, "nbig": 48, "big0": 48 * i} for i in range(3)]
+    return [{"n": 3500, "nbig": 1200, "big0": 1200 * i, "timeout": 1500} for i in range(6)]
+
+
+C02_BIG_MLC = (256, 257, 300, 1000, 2048, 0xFFFF)
+C02_BIG_MLE = (255, 256, 257, 300, 1000, 2048, 0xFFFF)
+C02_BIG_VT = ((0x20, 4), (0x30, 6), (0x10, 4), (0x30, 6), (0x30, 4), (0x30, 6))
+# length of NLEN field + message relative to the short APDU limit ("sa", 255) or to MLc, or in between
+C02_BIG_LEN = (("sa", 1), ("mlc", 0), ("sa", 0), ("mid", 0), ("sa", 2), ("mlc", 1), ("sa", -1), ("x2", 0), ("mlc", -1), ("lit", 0),
+               ("x2", 1), ("rand", 0))
+
+
+def c02_big_case(rng, j):
+    """j-th case of the class 'CC announces MLc above the short APDU limit': the length option cycles with j (every option is
+    reached by every quick run), the NLEN size / mapping version with j // 12, the remaining dimensions are drawn"""
+    lay = gen_layout(rng, small=True)
+    opt, d = C02_BIG_LEN[j % len(C02_BIG_LEN)]
+    lay["ver"], lay["tlv"] = C02_BIG_VT[(j // len(C02_BIG_LEN)) % len(C02_BIG_VT)]
+    ns = ns_of(lay)
+    mlc = rng.choice(C02_BIG_MLC)
+    if opt == "mlc" and mlc > 2048:
+        mlc = rng.choice([300, 1000, 2048])        # a message of FFFFh bytes is beyond the 15 bit offsets anyway
+    lay["mlc"], lay["mle"] = mlc, rng.choice(C02_BIG_MLE)
+    if opt == "sa":
+        L = 255 + d - ns
+    elif opt == "mlc":
+        L = mlc + d - ns
+    elif opt == "x2":
+        L = 510 + d - ns
+    elif opt == "lit":
+        L = rng.choice([253, 254, 255, 256, mlc - 3, mlc - 2, mlc - 1, mlc, mlc + 1])
+    elif opt == "mid":
+        L = rng.randrange(256 - ns, max(257 - ns, min(mlc, 2600) - ns + 1))
+    else:
+        L = rng.randrange(0, 2600)
+    L = max(0, min(L, 2600))
+    old_len = max(0, min(3000, rng.choice([0, 1, 3, 100, 251, 252, 253, 254, 300, L - 1, L - 1, L, L + 1, L + 1, L + 40, L // 2, 2 * L,
+                                           rng.randrange(L + 1), L + rng.randrange(300)])))
+    lay["fsize"] = max(L, old_len) + ns + rng.choice([0, 0, 1, 7, 300])
+    if rng.random() < 0.6 or chunks_est(dict(lay, prev_len=old_len), L) * (2 + (L + ns) // 255) > 12000:
+        lay["fsci"], lay["max_send"], lay["max_recv"] = 8, 290, 290
+    return {"family": FAM, "prop": "c02", "lay": lay, "old_len": old_len, "new_len": L, "mseed": rng.randrange(1 << 30)}
 
 
 def run_c02(desc, R, rng):
+    run_c02_small(desc, R, rng)
+    # (after the first class: its random stream does not depend on this one)
+    for i in range(desc.get("nbig", 0)):
+        case = c02_big_case(rng, desc.get("big0", 0) + i)
+        ok = c02_eval(R, case)
+        R.case(("c02", lay_key(case["lay"]), case["old_len"], case["new_len"]), nontrivial=ok)
+        if i < 1:
+            R.sample({"t4t_c02_mlc>255": {k: case["lay"][k] for k in ("kind", "tlv", "mle", "mlc", "fsize")}, "old": case["old_len"],
+                      "new": case["new_len"]})
+
+
+def run_c02_small(desc, R, rng):
     for i in range(desc["n"]):
         lay = gen_layout(rng, small=True)
         ns = ns_of(lay)
